@@ -18,7 +18,6 @@ REPO = os.environ.get("VERIF_REPO", "/repo")
 COQ = os.path.join(VERIF, "coq")
 WORK = os.path.join(VERIF, "work")
 BIN = os.path.join(WORK, "bin")
-RUNNER = os.path.join(VERIF, "runner", "build", "runner")
 NCPU = os.cpu_count() or 4
 
 FORBIDDEN = re.compile(
@@ -70,7 +69,7 @@ def coq_sources():
     out = []
     for p in sorted(glob.glob(os.path.join(COQ, "**", "*.v"), recursive=True)):
         rel = os.path.relpath(p, COQ)
-        if rel.startswith("Extract/") or rel.startswith("cross/"):
+        if rel.startswith("cross/"):
             continue
         out.append(rel)
     return out
@@ -79,7 +78,7 @@ def coq_sources():
 def hygiene():
     """forbidden vernacular anywhere in the development (comments stripped)"""
     bad = []
-    for rel in coq_sources() + ["Extract/Extract.v"]:
+    for rel in coq_sources():
         src = open(os.path.join(COQ, rel)).read()
         # strip (nested) comments
         res, depth, i = [], 0, 0
@@ -182,18 +181,23 @@ def assumption_problems(assumptions):
 # ---------------------------------------------------------------------------
 # runner and harness
 
-def gen_extract():
-    """Extract/Extract.v and runner/entries.ml are generated from coq/*/entries.txt
-    (lines: `<Module path under LS> <entry name>`), so layers never edit a shared file."""
+def build_runner(layers):
+    """Extract the entry points of the given layers (coq/<Layer>/entries.txt, lines
+    `<Module path under LS> <entry name>`) with ExtrOcamlBasic only and link them with
+    runner/driver.ml into runner/build/<layers>/runner. Each property's check builds
+    its own runner, so a broken layer cannot take other checks down."""
+    key = "_".join(layers)
+    bdir = os.path.join(VERIF, "runner", "build", key)
+    binp = os.path.join(bdir, "runner")
     mods, names = [], []
-    for p in sorted(glob.glob(os.path.join(COQ, "*", "entries.txt"))):
-        for line in open(p):
+    for layer in layers:
+        for line in open(os.path.join(COQ, layer, "entries.txt")):
             f = line.split()
             if len(f) == 2 and not line.startswith("#"):
                 if f[0] not in mods:
                     mods.append(f[0])
                 names.append(f[1])
-    ex = ("(** GENERATED by lib/common.py from coq/*/entries.txt — do not edit.\n"
+    ex = ("(** GENERATED by lib/common.py from coq/<Layer>/entries.txt.\n"
           "    Only ExtrOcamlBasic is used: bool, option, unit, list, prod, sumbool, sumor map to the\n"
           "    OCaml types and andb/orb are inlined; N, Z, positive and nat stay the Coq datatypes. *)\n"
           "Require Coq.extraction.Extraction.\nRequire Import Coq.extraction.ExtrOcamlBasic.\n"
@@ -203,24 +207,29 @@ def gen_extract():
     en = ("(* GENERATED: name -> extracted entry point; no logic *)\nopen Model\n"
           "let table : (string * (sx -> sx)) list = [\n%s]\n"
           % "".join('  ("%s", %s);\n' % (n, n) for n in names))
-    for path, txt in ((os.path.join(COQ, "Extract", "Extract.v"), ex),
-                      (os.path.join(VERIF, "runner", "entries.ml"), en)):
-        if not os.path.exists(path) or open(path).read() != txt:
-            open(path, "w").write(txt)
-
-
-def build_runner():
-    gen_extract()
-    with Lock("runner"):
-        src_mtime = max(os.path.getmtime(p) for p in
-                        glob.glob(os.path.join(COQ, "**", "*.vo"), recursive=True) +
-                        [os.path.join(COQ, "Extract", "Extract.v"),
-                         os.path.join(VERIF, "runner", "driver.ml"),
-                         os.path.join(VERIF, "runner", "entries.ml")])
-        if os.path.exists(RUNNER) and os.path.getmtime(RUNNER) >= src_mtime:
+    with Lock("runner_" + key):
+        os.makedirs(bdir, exist_ok=True)
+        changed = False
+        for path, txt in ((os.path.join(bdir, "Extract.v"), ex), (os.path.join(bdir, "entries.ml"), en)):
+            if not os.path.exists(path) or open(path).read() != txt:
+                open(path, "w").write(txt)
+                changed = True
+        vos = []
+        for layer in layers + ["Base"]:
+            vos += glob.glob(os.path.join(COQ, layer, "*.vo"))
+        src_mtime = max([os.path.getmtime(p) for p in vos] + [os.path.getmtime(os.path.join(VERIF, "runner", "driver.ml"))])
+        if not changed and os.path.exists(binp) and os.path.getmtime(binp) >= src_mtime:
             return True, "up to date"
-        rc, out = sh(["sh", os.path.join(VERIF, "runner", "build.sh")], timeout=1200)
+        shutil.copyfile(os.path.join(VERIF, "runner", "driver.ml"), os.path.join(bdir, "driver.ml"))
+        rc, out = sh("coqc -Q %s LS Extract.v && "
+                     "(ocamlfind ocamlopt -O3 -w -a model.mli model.ml entries.ml driver.ml -o runner 2>/dev/null || "
+                     "ocamlfind ocamlopt -w -a model.mli model.ml entries.ml driver.ml -o runner)" % COQ,
+                     cwd=bdir, timeout=1800)
         return rc == 0, out
+
+
+def runner_bin(layers):
+    return os.path.join(VERIF, "runner", "build", "_".join(layers), "runner")
 
 
 GOENV = {"GOFLAGS": "-mod=mod", "GOPROXY": "off", "CGO_ENABLED": "1"}
@@ -254,7 +263,7 @@ def build_harness(name, tags="verif", out=None):
         return rc == 0, o
 
 
-def run_runner(casefile, shards=None, mode="check", timeout=3000):
+def run_runner(casefile, layers, shards=None, mode="check", timeout=3000):
     """Run the extracted model over a case file. Returns (total, mismatches[list of dict], raw_errors)."""
     shards = shards or NCPU
     lines = open(casefile).read().split("\n")
@@ -277,7 +286,7 @@ def run_runner(casefile, shards=None, mode="check", timeout=3000):
     procs = []
     for b in buckets:
         data = "\n".join(l for _, l in b) + "\n"
-        p = subprocess.Popen("ulimit -s unlimited 2>/dev/null || ulimit -s 1000000; exec %s %s" % (RUNNER, mode),
+        p = subprocess.Popen("ulimit -s unlimited 2>/dev/null || ulimit -s 1000000; exec %s %s" % (runner_bin(layers), mode),
                              shell=True, stdin=subprocess.PIPE, stdout=subprocess.PIPE, stderr=subprocess.STDOUT)
         procs.append((p, b, data))
     # feed all (sequentially is fine: each communicate blocks only on its own process)
